@@ -164,13 +164,13 @@ Print Assumptions having_agg_refuted.
 
 Theorem join_agg_refuted :
   (spec_join_query jl jr 1 1 q_join = SRows [[VInt 1; VInt 2]] /\
-   model_join_query jl jr 1 1 q_join = MRows [[VInt 1; VInt 1]; [VInt 2; VInt 1]]) /\
+   model_join_query jl jr 1 1 q_join = MRows [[VNull; VInt 2]]) /\
   (spec_join_query jl [] 1 1 (mkQ None [] [mkAgg FCountStar (ECol 0)] [0%nat] None) = SRows [[VInt 0]] /\
    model_join_query jl [] 1 1 (mkQ None [] [mkAgg FCountStar (ECol 0)] [0%nat] None) = MRows []).
 Proof. exact (conj join_agg_refuted_l join_agg_empty_refuted_l). Qed.
 Check join_agg_refuted :
   (spec_join_query jl jr 1 1 q_join = SRows [[VInt 1; VInt 2]] /\
-   model_join_query jl jr 1 1 q_join = MRows [[VInt 1; VInt 1]; [VInt 2; VInt 1]]) /\
+   model_join_query jl jr 1 1 q_join = MRows [[VNull; VInt 2]]) /\
   (spec_join_query jl [] 1 1 (mkQ None [] [mkAgg FCountStar (ECol 0)] [0%nat] None) = SRows [[VInt 0]] /\
    model_join_query jl [] 1 1 (mkQ None [] [mkAgg FCountStar (ECol 0)] [0%nat] None) = MRows []).
 Print Assumptions join_agg_refuted.
